@@ -196,12 +196,16 @@ example : let s := run s0 (setupIdx ++ [.begin, .begin, .txUpdate 1 0 (.idEq 0) 
     (step s (.update 0 (.eq 0 4) [(1, 0)])).2 = .err .lockConflict ∧ (step s (.delete 0 .all)).2 = .err .lockConflict := by
   decide
 
-/-- `tx_insert` takes NO row lock: the exclusion above does not cover a row a transaction has
-    only inserted — another transaction can delete (or update) the uncommitted row. -/
+/-- REGRESSION WITNESS on the code before dcf916e8 (`stepOld`): `tx_insert` took NO row lock, so
+    another transaction could delete (or update) the uncommitted row.  On the current code the
+    same statements answer `LockConflict` (second half). -/
 theorem inserted_row_not_locked_witness :
+    let sOld := runOld s0 (setupIdx ++ [.begin, .begin, .txInsert 1 0 [4, 4]])
     let s := run s0 (setupIdx ++ [.begin, .begin, .txInsert 1 0 [4, 4]])
-    holder s 0 1 = none ∧ (step s (.txDelete 2 0 (.idEq 1))).2 = .okN 1 ∧
-    (step s (.txUpdate 2 0 (.idEq 1) [(0, 5)])).2 = .okN 1 := by decide
+    (holder sOld 0 1 = none ∧ (stepOld sOld (.txDelete 2 0 (.idEq 1))).2 = .okN 1 ∧
+      (stepOld sOld (.txUpdate 2 0 (.idEq 1) [(0, 5)])).2 = .okN 1) ∧
+    (holder s 0 1 = some 1 ∧ (step s (.txDelete 2 0 (.idEq 1))).2 = .err .lockConflict ∧
+      (step s (.txUpdate 2 0 (.idEq 1) [(0, 5)])).2 = .err .lockConflict) := by decide
 
 /-! ## locks disappear when the transaction ends or the lock times out -/
 
@@ -348,20 +352,23 @@ example :
     ((rollback sThree 2).1.tables 0).map (fun T => (select T (.ge 0 0), select T (.eq 0 1), select T (.eq 0 4))) =
       some ([(0, [1, 1]), (1, [2, 2])], [(0, [1, 1])], []) := by decide
 
-/-- `rollback_restores` at full strength is FALSE of the code.  Witness (two transactions,
-    statement granularity): A inserts a row (no lock is taken), B deletes that uncommitted row,
-    A rolls back (`slab.delete` on the already dead row reports nothing), B rolls back
-    (`restore_deleted_row` revives it).  Both transactions rolled back — and the table has a
-    row it did not have before either of them started; every statement answered `Ok`. -/
+/-- REGRESSION WITNESS on the code before dcf916e8 (`runOld`): `rollback_restores` was false even
+    without timeouts and DDL.  A inserts a row (no lock was taken), B deletes that uncommitted
+    row, A rolls back (`slab.delete` on the already dead row reports nothing), B rolls back
+    (`restore_deleted_row` revives it).  Both transactions rolled back — and the table has a row
+    it did not have before either of them started; every statement answered `Ok`.  On the
+    current code B's delete answers `LockConflict` and the table ends as it began. -/
 theorem rollback_restores_witness :
     let ops : List Op := setupIdx ++ [.begin, .begin, .txInsert 1 0 [4, 4], .txDelete 2 0 (.idEq 1), .rollback 1, .rollback 2]
-    let pre := run s0 setupIdx
-    let fin := run s0 ops
-    runRes s0 ops = [.okN 0, .ok, .ok, .okN 0, .okN 1, .okN 2, .okN 1, .okN 1, .ok, .ok] ∧
+    let pre := runOld s0 setupIdx
+    let fin := runOld s0 ops
+    runResOld s0 ops = [.okN 0, .ok, .ok, .okN 0, .okN 1, .okN 2, .okN 1, .okN 1, .ok, .ok] ∧
     (pre.tables 0).map (scanAnswer · .all) = some [(0, [1, 1])] ∧
     (fin.tables 0).map (scanAnswer · .all) = some [(0, [1, 1]), (1, [4, 4])] ∧
     (fin.tables 0).map (select · (.eq 0 4)) = some [(1, [4, 4])] ∧
-    fin.txs 1 = none ∧ fin.txs 2 = none := by decide
+    fin.txs 1 = none ∧ fin.txs 2 = none ∧
+    runRes s0 ops = [.okN 0, .ok, .ok, .okN 0, .okN 1, .okN 2, .okN 1, .err .lockConflict, .ok, .ok] ∧
+    ((run s0 ops).tables 0).map (scanAnswer · .all) = some [(0, [1, 1])] := by decide
 
 /-- Second hole, index side: an index created between a transaction's statement and its
     rollback is not maintained by the undo (the undo entry lists only the indexes that existed
@@ -375,16 +382,18 @@ theorem rollback_index_restore_witness :
     (fin.tables 0).map (scanAnswer · (.eq 0 1)) = some [(0, [1, 1])] ∧
     (fin.tables 0).map (select · (.eq 0 1)) = some [] := by decide
 
-/-- Third hole: the undo of an update / delete re-applies hash AND b-tree entry changes for every
-    listed column whether or not that index exists; `btree_index_add` creates the in-memory map
-    for a b-tree that was never created, and a later `create_btree_index` keeps the ghost entry:
-    a purely sequential script after which a range query returns the same row twice. -/
+/-- REGRESSION WITNESS on the code before c322e794 (`runOld`): the undo of an update / delete
+    re-applied hash AND b-tree entry changes for every listed column whether or not that index
+    existed; `btree_index_add` creates the in-memory map for a b-tree that was never created, and
+    a later `create_btree_index` kept the ghost entry: a purely sequential script after which a
+    range query returned the same row twice.  On the current code the answer is exact. -/
 theorem undo_ghost_btree_entry_witness :
     let ops : List Op := [.createTable 2, .createIndex 0 0, .insert 0 [1, 1], .begin,
         .txUpdate 1 0 (.idEq 0) [(0, 2)], .rollback 1, .update 0 (.idEq 0) [(0, 3)], .createBtree 0 0]
-    let fin := run s0 ops
+    let fin := runOld s0 ops
     (fin.tables 0).map (scanAnswer · (.ge 0 0)) = some [(0, [3, 1])] ∧
-    (fin.tables 0).map (select · (.ge 0 0)) = some [(0, [3, 1]), (0, [3, 1])] := by decide
+    (fin.tables 0).map (select · (.ge 0 0)) = some [(0, [3, 1]), (0, [3, 1])] ∧
+    ((run s0 ops).tables 0).map (select · (.ge 0 0)) = some [(0, [3, 1])] := by decide
 
 /-- `TransactionManager::cleanup_expired` drops a timed-out transaction WITHOUT applying its undo
     log: its statements stay in the tables although it never committed (and `commit` then
